@@ -13,7 +13,8 @@ CLAIMED = {
                 "(every arm: Number, Variable, Abs, Min and Max over any number of operands, all binary operators incl. the constant-scale and constant-division forms, negation, every logic connective). "
                 "The backward step is proved too (U07.back): tighten_variable, tighten_expression (every arm: variable, abs, min, max, + - , constant * and /, negation) and tighten_constraint_expression never cut off a point of the current box "
                 "at which the expression takes a value in the required range, and record infeasibility only when no such point exists; because this holds for every box it holds at every step, so stopping at the step limit is covered. "
-                "NOT decided deductively: the propagation loop and tighten_affine_form (prefix / suffix sums over IndexMap iterators), from_domain, apply_to_domain (publication, integer rounding): these are covered only by a BOUNDED search over "
+                "The affine-row step tighten_affine_form (term ranges, prefix / suffix sums, (required - others) / c per variable) is proved under the same statement (U07.aff), given a well-formed affine form. "
+                "NOT decided deductively: AffineForm::from_exp / merge / scale, the propagation loop (queue, dependencies), from_domain, apply_to_domain (publication, integer rounding): these are covered only by a BOUNDED search over "
                 "the whole real analyser (12 systems x 3 domains x 3 step limits). That search exposes one KNOWN FINDING (recorded, not repaired): real bounds inexact in floating point are published without outward rounding. "
                 "Proof level because the statement is a for-all over reals and infinities that no grid of tests covers.",
         "note": "Trusted: prelude/f64_layer.rs (f64 treated as exact extended reals, IEEE special-value tables). Rounding error of finite arithmetic is out of reach and said so.",
